@@ -90,6 +90,7 @@ type Contract struct {
 	foralls  []qvar    // contract-level universally quantified variables
 	nilParams []string // parameters bound to nil
 	callAsserts []*Clause // label = callee name
+	havocs    []Expr    // modular contract: locations the callee may modify
 	cases    []*Clause // explicit case split applied to every postcondition
 	asserts  []*Clause // proved at function exit, then available to the postconditions
 	script   []scriptStmt // let / assert / use / generalize in source order
@@ -655,6 +656,12 @@ func (cs *ContractSet) parseFile(pkg, path, src string) error {
 			for _, n := range strings.Fields(strings.ReplaceAll(rest, ",", " ")) {
 				cur.script = append(cur.script, scriptStmt{kind: "generalize", name: n, text: rest})
 			}
+		case "havoc":
+			e, _, err := parseExpr(rest)
+			if err != nil {
+				return errf("%v", err)
+			}
+			cur.havocs = append(cur.havocs, e)
 		case "callassert":
 			f := strings.SplitN(rest, " ", 2)
 			if len(f) < 2 {
@@ -1102,7 +1109,9 @@ func (x *Exec) indexValue(st *State, v Value, i *Term) Value {
 		return x.selectSym(t.el, 0, len(t.el), i)
 	case *SliceV:
 		if t.cell == nil {
-			fail("spec index of nil slice")
+			// reading a nil slice in a specification: unspecified value (the clause has to guard it)
+			x.symArrCtr++
+			return &Opaque{tag: "unspecified", id: freshVar(fmt.Sprintf("unspec%d", x.symArrCtr), SInt)}
 		}
 		if _, ok := st.store[t.cell].(*SymArr); ok {
 			return x.load(st, &Ptr{cell: t.cell, sym: mkAdd(t.off, i)})
@@ -1687,6 +1696,9 @@ func (x *Exec) isNil(v Value) *Term {
 	case *AbsObj:
 		return tFalse
 	case *SliceV:
+		if t.cell != nil && t.nilT != nil {
+			return t.nilT
+		}
 		return mkBool(t.cell == nil)
 	case *Opaque:
 		if t.nilT != nil {
